@@ -27,7 +27,7 @@ TECHNIQUE = ('evaluated dispatcher tables and constant tables compared with tran
              'rules (must-follow / must-precede on per-function CFGs); ambient-source and set-order lint over the '
              'parse path; fragment-context vs. handler content-model agreement; insertion-mode transition table '
              '(allowed / required switches) over the resolved dispatcher call graph; guard partition of the '
-             'dispatcher and breakout conditions; source evaluation (sa/classeval.py) of addFormattingElement (Noah\'s Ark), the table and frameset character handlers on model trees')
+             'dispatcher and breakout conditions; source evaluation (sa/classeval.py) of addFormattingElement (Noah\'s Ark), the table and frameset character handlers and the </form> end tag handler on model trees')
 CLAIM = ('Necessary structural conditions of WHATWG conformance, each over all code paths: the parser reads no '
          'ambient state; dispatcher tables are well formed; switching the tokenizer to RCDATA/RAWTEXT/script '
          'data is always paired with entering the text insertion mode; the formatting-element, scope-marker, '
@@ -43,7 +43,7 @@ CLAIM = ('Necessary structural conditions of WHATWG conformance, each over all c
          'Foster parenting is applied exactly when it is enabled and the current node is a table, tbody, '
          "tfoot, thead or tr; the adoption agency's outer loop is bounded by 8 and its inner loop is not "
          'bounded by a counter (known finding).'
-         " The newline-dropping handler, the fragment form pointer and adoption-agency step 2 are looked for as code shapes (two known findings); the switch to 'after frameset' carries both conditions of the standard's sentence; first-match searches written as generators are read too."
+         " The newline-dropping handler, the fragment form pointer and adoption-agency step 2 are looked for as code shapes (two known findings); the switch to 'after frameset' carries both conditions of the standard's sentence; first-match searches written as generators are read too. The </form> end tag handler is run on model trees: the form element pointer is null afterwards whether or not the end tag is ignored, and the pointed-to node (not the current node) leaves the stack (C01.27)."
          ' A foster-parenting bracket that can be re-entered restores the value it found; in table, characters become table text only when the current node is table / tbody / tfoot / thead / tr (both handlers run on nine current-node names).')
 NOT_DECIDED = ('the tree itself: adoption agency, reconstruction of formatting elements, foster parenting positions, '
                'the conditions under which a mode switch is taken (only its possible and required targets are '
